@@ -202,3 +202,45 @@ def node_straddling_walker(model, up, dn, rs, tries=20):
             if f0(u, d) > 0 and f1(u, d) < 0:
                 return u, d
     return None
+
+
+def site_node_walker(model, up, dn, rs, site, field, tries=40):
+    """A walker that is fine up to the two-body update of `site`, where exactly ONE of the two
+    discrete field values is forbidden by the constraint (overlap ratio < 0 for `field`, > 0 for
+    the other one).  Found by bisection like node_straddling_walker.  Returns (up, dn) or None."""
+    def ob(u, d):
+        return model.one_body(u, d)
+
+    def f_keep(u, d):  # must stay positive: overlap before and after the first half step, and the allowed field
+        u1, d1 = ob(u, d)
+        other = model.site_options(u1, d1, site)[1 - field]
+        # earlier sites are updated first in a sweep; keep it simple: only site 0 is targeted by callers
+        return min(model.ov(u, d).real, model.ov(u1, d1).real, model.ov(*other).real)
+
+    def f_flip(u, d):  # must become negative: the forbidden field
+        u1, d1 = ob(u, d)
+        return model.ov(*model.site_options(u1, d1, site)[field]).real
+
+    for _ in range(tries):
+        bu = up + rs.normal(size=up.shape)
+        bd = dn + rs.normal(size=dn.shape)
+
+        def at(t):
+            return (1 - t) * up + t * bu, (1 - t) * dn + t * bd
+
+        if f_flip(*at(0.0)) <= 0 or f_flip(*at(1.0)) >= 0:
+            continue
+        lo, hi = 0.0, 1.0
+        for _ in range(200):
+            mid = 0.5 * (lo + hi)
+            if f_flip(*at(mid)) > 0:
+                lo = mid
+            else:
+                hi = mid
+        # a little beyond the crossing of the forbidden field
+        for step in (1e-3, 1e-2, 5e-2):
+            t = min(1.0, hi + step * (1.0 - hi))
+            u, d = at(t)
+            if f_flip(u, d) < 0 and f_keep(u, d) > 1e-6:
+                return u, d
+    return None
